@@ -849,6 +849,9 @@ class TextString(Base):
         # Read padding and check content
         self.padding_length = self.PADDING_SIZE - (self.length %
                                                    self.PADDING_SIZE)
+        if self.padding_length == self.PADDING_SIZE:
+            self.padding_length = 0
+
         if self.padding_length < self.PADDING_SIZE:
             for _ in range(self.padding_length):
                 pad = unpack('!B', istream.read(1))[0]
